@@ -41,7 +41,12 @@ var c14Named = []string{"Int", "Float", "String", "Boolean", "ID", "Kind", "In",
 var c14Schema = refcoerce.Schema{
 	"Int": {Kind: "SCALAR"}, "Float": {Kind: "SCALAR"}, "String": {Kind: "SCALAR"}, "Boolean": {Kind: "SCALAR"}, "ID": {Kind: "SCALAR"}, "Any": {Kind: "SCALAR"},
 	"Kind": {Kind: "ENUM", Values: []string{"DOG", "CAT"}},
+	"Other": {Kind: "INPUT_OBJECT", Fields: []refcoerce.Field{
+		{Name: "first", Type: &refcoerce.Type{Named: "Int"}},
+		{Name: "z", Type: &refcoerce.Type{Named: "Int"}},
+	}},
 	"In": {Kind: "INPUT_OBJECT", Fields: []refcoerce.Field{
+		{Name: "aa", Type: &refcoerce.Type{Named: "Other"}},
 		{Name: "a", Type: &refcoerce.Type{Named: "Int"}},
 		{Name: "b", Type: &refcoerce.Type{Named: "String", NonNull: true}},
 		{Name: "c", Type: &refcoerce.Type{Elem: &refcoerce.Type{Named: "In"}}},
@@ -108,7 +113,7 @@ func c14Setup() *c14Env {
 	c14Once.Do(func() {
 		e := &c14Env{types: c14Types(), ops: map[string]*ast.OperationDefinition{}}
 		var sb strings.Builder
-		sb.WriteString("scalar Any\nenum Kind { DOG CAT }\ninput In { a: Int b: String! c: [In] d: In e: Int! = 5 k: Kind m: [[Int!]] }\ntype Query {\n")
+		sb.WriteString("scalar Any\nenum Kind { DOG CAT }\ninput Other { first: Int z: Int }\ninput In { aa: Other a: Int b: String! c: [In] d: In e: Int! = 5 k: Kind m: [[Int!]] }\ntype Query {\n")
 		for i, t := range e.types {
 			fmt.Fprintf(&sb, "  t%d(x: %s): Int\n", i, t.String())
 		}
@@ -253,7 +258,7 @@ func genValue(ch *explore.Chooser, s refcoerce.Schema, t *refcoerce.Type, nest i
 		}
 		return m
 	}
-	switch ch.Deviate(16) {
+	switch ch.Deviate(20) {
 	case 0:
 		return base()
 	case 1:
@@ -307,8 +312,30 @@ func genValue(ch *explore.Chooser, s refcoerce.Schema, t *refcoerce.Type, nest i
 		m := base()
 		m["m"] = genValue(ch, s, &refcoerce.Type{Elem: &refcoerce.Type{Elem: &refcoerce.Type{Named: "Int", NonNull: true}}}, nest+1)
 		return m
-	default:
+	case 15:
 		return map[string]any{}
+	case 16:
+		m := base()
+		m["__x"] = 1 // not a declared field, whatever its spelling
+		return m
+	case 17:
+		// one Go map used at two positions of different declared types: it conforms to Other (aa)
+		// but not to In (d: required b missing)
+		shared := map[string]any{"first": 10}
+		m := base()
+		m["aa"] = shared
+		m["d"] = shared
+		return m
+	case 18:
+		shared := map[string]any{"first": 10}
+		m := base()
+		m["aa"] = shared
+		m["c"] = []any{shared}
+		return m
+	default:
+		m := base()
+		m["aa"] = map[string]any{"first": 1, "z": nil}
+		return m
 	}
 }
 
@@ -543,7 +570,7 @@ func normNum(v any) any {
 func runC14(c *explore.Ctx) {
 	e := c14Setup()
 	bound := c.Pick(2, 3)
-	s := c.Sub("values", fmt.Sprintf("all %d variable types (list depth ≤ 3 × every non-null pattern × {Int, Float, String, Boolean, ID, enum, recursive input object, custom scalar}) × every value reachable from the conforming skeleton by ≤ %d deviations (null, empty list, single value for list, null item, each of 22 leaf alternatives incl. json.Number forms and typed slices, 15 input-object variants incl. unknown / missing / null / __typename fields, typed map, nested objects and lists) × {no default, default}", len(e.types), bound),
+	s := c.Sub("values", fmt.Sprintf("all %d variable types (list depth ≤ 3 × every non-null pattern × {Int, Float, String, Boolean, ID, enum, recursive input object, custom scalar}) × every value reachable from the conforming skeleton by ≤ %d deviations (null, empty list, single value for list, null item, each of 22 leaf alternatives incl. json.Number forms and typed slices, 19 input-object variants incl. unknown / missing / null / __typename / other __-prefixed fields, typed map, nested objects and lists, one map instance used at two positions of different types) × {no default, default}", len(e.types), bound),
 		"VariableValues returns normally; if the value cannot be coerced (ref/refcoerce) an error is returned; on success every declared variable conforms to its type and the absent second variable holds its default", "executions that return values")
 	if s != nil {
 		t0 := time.Now()
